@@ -8,6 +8,12 @@
 //! engine and judged: restart works, validated replay works, acknowledged appends are present
 //! exactly once, further appends continue the numbering, and the caches found are either
 //! reconciled or ignored (sampled C04 differential before and after the further appends).
+//!
+//! Frame-size dimension (`huge_frame_restarts`, runs first and time-boxed): short histories whose LAST frames
+//! before the crash / restart are larger than the read windows of the restart-time readers (line lengths drawn
+//! around every multiple of 8 KiB / 64 KiB / 256 KiB, several tail layouts over one or two streams and two frame
+//! kinds). Their crash images AND the plain clean restart (drop the engine, reopen: the degenerate crash point)
+//! go through the same restart oracle.
 
 use crate::c04::{diff_summary, queries, run_query};
 use crate::fixture::{copy_dir, runtime, wait_for, App, Store};
@@ -94,13 +100,19 @@ pub fn run(cfg: &Cfg) -> i32 {
         "fault_enumeration",
         "every hit of every crash point (log/sidecar/index/artifact/snapshot write boundaries, incl. between body and \
          newline of frames larger than the writer buffer) of every operation of seeded sequential workloads is imaged \
-         (copy of data dir + workspace .rip), restarted with a fresh engine and judged; distinct = distinct \
-         (operation kind, crash point) pairs whose image was restarted",
+         (copy of data dir + workspace .rip), restarted with a fresh engine and judged; in addition short histories \
+         whose last frames are larger than the restart-time read windows (log line lengths on and around the multiples \
+         of 8/64/256 KiB and drawn up to ~330 KiB, six tail layouts over one or two streams, message and hand-off \
+         frames) are restarted from a few crash images of their tail and from a clean restart (engine dropped, store \
+         reopened) under the same oracle; distinct = distinct (operation kind, crash point) pairs whose image was \
+         restarted, for the large-frame histories (layout, line-length classes, operation, restart point)",
     );
     r.assume("a directory copy taken at a hook equals what a process kill leaves (process crash, not power loss; the code never fsyncs)");
     r.assume("the workload is sequential, so the image is taken while no other writer is active");
     let s = sched();
     let rt = runtime(4);
+    // frame size relative to the restart-time read windows (time-boxed, before the long general histories)
+    huge_frame_restarts(cfg, &mut r, &s);
     let mut case = 0u64;
     while !r.over(cfg) && case < cfg.tier.pick(200, 100_000) {
         let idx = case;
@@ -271,6 +283,440 @@ fn real_process_aborts(cfg: &Cfg, r: &mut Report) {
     }
 }
 
+// ---------------------------------------------------------------------------------------------------------
+// Frame size relative to the read windows of the restart-time readers
+// ---------------------------------------------------------------------------------------------------------
+
+const CLEAN_RESTART: &str = "clean_restart";
+const K: usize = 1024;
+
+/// Wanted lengths of the frame's log line (bytes, newline excluded; with the newline one more). The marks are the
+/// multiples of the windows the readers use at / after a restart: 8 KiB (writer / reader buffers, reverse-scan
+/// chunks of the sidecars), 64 KiB (backward-scan chunks of the log, first sidecar back-scan), 256 KiB and 512 KiB
+/// (first tail windows; they double from there). Ordered so that any few consecutive entries differ in how many
+/// windows the line spans. Nothing here is derived from any particular reader: a reader with another window is
+/// reached by the random sizes of the cases after the table.
+const LINE_TARGETS: &[usize] = &[
+    128 * K + 1,
+    64 * K,
+    300_000,
+    192 * K + 1,
+    8 * K,
+    64 * K + 1,
+    128 * K - 1,
+    256 * K + 1,
+    64 * K - 1,
+    16 * K + 1,
+    128 * K,
+    256 * K - 1,
+    192 * K - 1,
+    64 * K - 2,
+    8 * K - 1,
+    256 * K,
+    128 * K - 2,
+    192 * K,
+    512 * K + 1,
+    8 * K + 1,
+];
+
+/// What the tail of the history (the part that is imaged and then restarted) looks like. A = default thread,
+/// B = a branch of it.
+const TAIL_LAYOUTS: &[&str] = &[
+    "huge_last",               // … HUGE(A)
+    "huge_then_tiny_other",    // … HUGE(A) tiny(B): last of its stream, but not at the end of the file
+    "two_streams_interleaved", // … HUGE(A) HUGE(B) [tiny(A)]
+    "huge_then_tiny_same",     // … HUGE(A) tiny(A): second-to-last
+    "huge_handoff",            // … hand-off whose creation frame carries a huge summary: last frame of the NEW thread
+    "two_huge_same",           // … HUGE(A) HUGE'(A)
+];
+
+#[derive(Default)]
+struct TailShared {
+    active: bool,
+    op_index: usize,
+    op_kind: String,
+    huge_op: bool,
+    acked: usize,
+    conts: Vec<String>,
+    root: PathBuf,
+    data: PathBuf,
+    ws: PathBuf,
+    /// (image, rank): 2 = taken during a huge append right after its log line (body / whole line) reached the file,
+    /// 1 = at another boundary of a huge append where a huge line is the tail of the log or the sidecar, 0 = the rest
+    images: Vec<(Image, u8)>,
+    hits: u64,
+    skipped: u64,
+    rng_state: u64,
+}
+
+fn size_class(line_len: usize) -> String {
+    // windows the line spans at least / which side of the nearest 64 KiB multiple it is on
+    let w = if line_len < 48 * K { 8 * K } else { 64 * K };
+    let with_nl = line_len + 1;
+    let near = ((with_nl + w / 2) / w) * w;
+    if near == 0 {
+        "small".to_string()
+    } else if with_nl == near || line_len == near {
+        format!("{}K=", near / K)
+    } else if with_nl + 2 >= near && with_nl < near {
+        format!("{}K-", near / K)
+    } else if with_nl > near && line_len <= near + 2 {
+        format!("{}K+", near / K)
+    } else {
+        format!("~{}K", (line_len / (w / 2)) * (w / 2) / K)
+    }
+}
+
+fn last_line_len(path: &std::path::Path) -> usize {
+    let b = std::fs::read(path).unwrap_or_default();
+    let b = if b.last() == Some(&b'\n') { &b[..b.len() - 1] } else { &b[..] };
+    match b.iter().rposition(|c| *c == b'\n') {
+        Some(p) => b.len() - p - 1,
+        None => b.len(),
+    }
+}
+
+fn filler(rng: &mut Rng, n: usize) -> String {
+    // plain ASCII without anything JSON escapes: content bytes == line bytes
+    const A: &[u8] = b"abcdefghijklmnopqrstuvwxyzABCDEFGHIJKLMNOPQRSTUVWXYZ0123456789 _-.,";
+    let word = rng.ascii(97);
+    let mut s = String::with_capacity(n + 100);
+    while s.len() < n {
+        s.push_str(&word);
+        s.push(A[rng.usize(A.len())] as char);
+    }
+    s.truncate(n);
+    s
+}
+
+/// Histories whose last frames are larger than the restart-time read windows; restart oracle on a few crash images
+/// of the tail and on the clean restart.
+fn huge_frame_restarts(cfg: &Cfg, r: &mut Report, s: &Arc<crate::sched::Sched>) {
+    let time_box = cfg.budget_s * cfg.tier.pick(0.2, 0.15);
+    let max_cases = cfg.tier.pick(120u64, 4000u64);
+    // different seeds walk the table from a different entry
+    let rot = (cfg.seed as usize).wrapping_mul(7);
+    let mut i = 0u64;
+    while i < max_cases && r.elapsed() < time_box {
+        let idx = i;
+        i += 1;
+        if !cfg.mine(idx) {
+            continue;
+        }
+        let mut rng = cfg.case_rng(700_000 + idx);
+        let k = idx as usize;
+        let layout = TAIL_LAYOUTS[(k / TAIL_LAYOUTS.len() + k) % TAIL_LAYOUTS.len()];
+        // the first 240 cases walk the whole (line length x layout) table with the first huge frame exactly on the
+        // table value; everything else (second huge frame, later cases) is drawn
+        let directed = k < LINE_TARGETS.len() * TAIL_LAYOUTS.len() * 2;
+        let draw = |rng: &mut Rng, j: usize| -> usize {
+            let t = LINE_TARGETS[(k + rot + j * 5) % LINE_TARGETS.len()];
+            let t = if directed && j == 0 {
+                t
+            } else {
+                match rng.below(4) {
+                    0 => t,
+                    // near a mark, but off by up to the framing overhead (a reader may count content, not line, bytes)
+                    1 => (t + rng.usize(700)).saturating_sub(350),
+                    _ => 60 * K + rng.usize(270 * K),
+                }
+            };
+            // the largest class only rarely in the quick tier (cost)
+            if t > 400 * K && cfg.tier == crate::report::Tier::Quick && !rng.chance(1, 4) {
+                320 * K + 1
+            } else {
+                t.max(600)
+            }
+        };
+        let t0 = draw(&mut rng, 0);
+        let t1 = draw(&mut rng, 1);
+        one_huge_history(cfg, r, s, &mut rng, idx, layout, [t0, t1], time_box);
+    }
+    s.reset();
+}
+
+#[allow(clippy::too_many_arguments)]
+fn one_huge_history(
+    cfg: &Cfg,
+    r: &mut Report,
+    s: &Arc<crate::sched::Sched>,
+    rng: &mut Rng,
+    idx: u64,
+    layout: &'static str,
+    targets: [usize; 2],
+    time_box: f64,
+) {
+    let case = 700_000 + idx;
+    let store = Store::new("c05huge");
+    let img_root = store.dir.join("images");
+    let _ = std::fs::create_dir_all(&img_root);
+    let shared = Arc::new(Mutex::new(TailShared {
+        root: img_root.clone(),
+        data: store.data.clone(),
+        ws: store.ws.clone(),
+        rng_state: rng.below(u64::MAX),
+        ..Default::default()
+    }));
+    s.reset();
+    let max_candidates = cfg.tier.pick(24usize, 40usize);
+    let sh2 = shared.clone();
+    s.set_custom(Some(Arc::new(move |point: &'static str, _ctx: &str| {
+        if !wanted(point) {
+            return;
+        }
+        let mut g = sh2.lock().unwrap();
+        if !g.active {
+            return;
+        }
+        g.hits += 1;
+        // boundaries at which a huge line is (part of) the tail of the log / sidecar, and the entry of the next op
+        // (= everything of the previous op on disk) always; the other boundaries sampled 1 in 3
+        let priority = matches!(point, "log.append.enter" | "log.append.after_body" | "log.append.after_flush" | "cache.sidecar.after_body" | "cont.cache.exit");
+        g.rng_state = g.rng_state.wrapping_mul(6364136223846793005).wrapping_add(1442695040888963407);
+        let keep = priority || (g.rng_state >> 33) % 3 == 0;
+        if !keep || g.images.len() >= max_candidates {
+            g.skipped += 1;
+            return;
+        }
+        let n = g.images.len();
+        let dir = g.root.join(format!("{n}"));
+        copy_dir(&g.data, &dir.join("data"));
+        copy_dir(&g.ws.join(".rip"), &dir.join("ws").join(".rip"));
+        let img = Image { dir, point, op_index: g.op_index, op_kind: g.op_kind.clone(), acked: g.acked, conts: g.conts.clone() };
+        let rank = if !g.huge_op || !priority || point == "log.append.enter" {
+            0
+        } else if matches!(point, "log.append.after_body" | "log.append.after_flush") {
+            2
+        } else {
+            1
+        };
+        g.images.push((img, rank));
+    })));
+
+    // ---- prefix (not imaged): a few small frames, the second stream, one calibration message per stream --------
+    let app = App::open(&store, None).expect("open");
+    let st = app.store();
+    let a = st.ensure_default().expect("default");
+    let mut known = Known::default();
+    let tag = format!("h{idx}");
+    let mut acked: Vec<String> = Vec::new();
+    let mut conts = vec![a.clone()];
+    for _ in 0..rng.range(1, 3) {
+        let kind = if rng.chance(1, 5) { OpKind::BigMsg } else { OpKind::Msg };
+        acked.extend(exec(&app, &store.data, &conts, &mut known, kind, rng, &tag).acked);
+    }
+    let needs_b = matches!(layout, "huge_then_tiny_other" | "two_streams_interleaved");
+    if needs_b {
+        match st.branch(&a, Some("b".into()), None, None, "rv-huge".into(), "rv".into()) {
+            Ok((b, _, _)) => conts.push(b),
+            Err(e) => {
+                r.inconclusive(&format!("huge case {idx}: branch failed: {e}"));
+                s.set_custom(None);
+                return;
+            }
+        }
+    }
+    let log_path = store.log_path();
+    // framing overhead of a message line on each stream (same actor / origin / seq width as the huge one)
+    let mut overhead: Vec<usize> = Vec::new();
+    for c in conts.clone() {
+        let cal_n = rng.usize(30);
+        let cal = format!("{tag}-calibration {}", rng.ascii(cal_n));
+        match st.append_message(&c, "rv-huge".into(), "rv".into(), cal.clone()) {
+            Ok(id) => acked.push(id),
+            Err(e) => {
+                r.inconclusive(&format!("huge case {idx}: calibration append failed: {e}"));
+                s.set_custom(None);
+                return;
+            }
+        }
+        overhead.push(last_line_len(&log_path).saturating_sub(cal.len()));
+    }
+
+    // ---- tail (imaged) -----------------------------------------------------------------------------------------
+    #[derive(Clone, Copy)]
+    enum TailOp {
+        Huge(usize, usize), // (stream index, wanted line length)
+        Tiny(usize),
+        HugeHandoff(usize),
+    }
+    let tail: Vec<TailOp> = match layout {
+        "huge_last" => vec![TailOp::Huge(0, targets[0])],
+        "huge_then_tiny_other" => vec![TailOp::Huge(0, targets[0]), TailOp::Tiny(1)],
+        "two_streams_interleaved" => {
+            let mut v = vec![TailOp::Huge(0, targets[0]), TailOp::Huge(1, targets[1])];
+            if rng.bool() {
+                v.push(TailOp::Tiny(0));
+            }
+            v
+        }
+        "huge_then_tiny_same" => vec![TailOp::Huge(0, targets[0]), TailOp::Tiny(0)],
+        "huge_handoff" => {
+            let mut v = vec![TailOp::HugeHandoff(targets[0])];
+            if rng.bool() {
+                v.push(TailOp::Tiny(0));
+            }
+            v
+        }
+        _ => vec![TailOp::Huge(0, targets[0]), TailOp::Huge(0, targets[1])],
+    };
+    {
+        let mut g = shared.lock().unwrap();
+        g.conts = conts.clone();
+        g.acked = acked.len();
+        g.active = true;
+    }
+    let mut lines: Vec<usize> = Vec::new();
+    let mut desc: Vec<String> = Vec::new();
+    for (oi, op) in tail.iter().enumerate() {
+        {
+            let mut g = shared.lock().unwrap();
+            g.op_index = oi;
+            g.huge_op = !matches!(op, TailOp::Tiny(_));
+            g.op_kind = match op {
+                TailOp::Huge(si, t) => format!("HugeMsg[{layout};stream{si};line{t}]"),
+                TailOp::Tiny(si) => format!("TinyAfterHuge[{layout};stream{si}]"),
+                TailOp::HugeHandoff(t) => format!("HugeHandoff[{layout};summary{t}]"),
+            };
+        }
+        let mut new_acked: Vec<String> = Vec::new();
+        match *op {
+            TailOp::Huge(si, target) => {
+                let mut content = format!("{tag}-huge{oi} ");
+                let want = target.saturating_sub(overhead[si]).max(content.len());
+                let pad = filler(rng, want - content.len());
+                content.push_str(&pad);
+                match st.append_message(&conts[si], "rv-huge".into(), "rv".into(), content) {
+                    Ok(id) => new_acked.push(id),
+                    Err(e) => r.inconclusive(&format!("huge case {idx}: huge append failed: {e}")),
+                }
+                let got = last_line_len(&log_path);
+                lines.push(got);
+                r.count("huge_frames_appended", 1);
+                r.count("huge_frame_bytes_appended", got as u64);
+                if got == target {
+                    r.count("huge_frames_exactly_on_wanted_line_length", 1);
+                }
+                r.count(&format!("huge_line_class:{}", size_class(got)), 1);
+                desc.push(format!("huge(stream{si},{got}B)"));
+            }
+            TailOp::Tiny(si) => {
+                let kind = *rng.pick(&[OpKind::Msg, OpKind::Msg, OpKind::RunSpawned, OpKind::Cursor, OpKind::SideEffects]);
+                let res = exec(&app, &store.data, &conts[si..si + 1], &mut known, kind, rng, &tag);
+                new_acked.extend(res.acked);
+                desc.push(format!("tiny(stream{si},{:?})", res.kind.unwrap_or(kind)));
+            }
+            TailOp::HugeHandoff(target) => {
+                let summary = format!("{tag}-handoff {}", filler(rng, target));
+                match st.handoff(&a, Some("huge".into()), (Some(summary), None), None, None, ("rv-huge".into(), "rv".into())) {
+                    Ok((child, _, _)) => {
+                        conts.push(child);
+                        // the creation frames are not reported individually by `handoff`; the oracle still demands
+                        // gap-free numbering and usability of the new thread
+                    }
+                    Err(e) => r.inconclusive(&format!("huge case {idx}: handoff failed: {e}")),
+                }
+                let frames = truth::parse_log(&store.log_bytes()).unwrap_or_default();
+                let got = frames.iter().map(|f| f.v.to_string().len()).max().unwrap_or(0);
+                lines.push(got);
+                r.count("huge_frames_appended", 1);
+                r.count("huge_handoff_frames_appended", 1);
+                r.count("huge_frame_bytes_appended", got as u64);
+                r.count(&format!("huge_line_class:{}", size_class(got)), 1);
+                desc.push(format!("huge_handoff(~{got}B)"));
+            }
+        }
+        acked.extend(new_acked);
+        let mut g = shared.lock().unwrap();
+        g.acked = acked.len();
+        g.conts = conts.clone();
+    }
+    let (mut candidates, hits, skipped) = {
+        let mut g = shared.lock().unwrap();
+        g.active = false;
+        (std::mem::take(&mut g.images), g.hits, g.skipped)
+    };
+    s.set_custom(None);
+    drop(st);
+    drop(app);
+    r.count("huge_histories", 1);
+    r.count(&format!("huge_layout:{layout}"), 1);
+    r.count("huge_tail_hook_hits", hits);
+    r.count("huge_tail_images_taken", candidates.len() as u64);
+    r.count("huge_tail_hits_not_imaged", skipped);
+    let classes: Vec<String> = lines.iter().map(|l| size_class(*l)).collect();
+
+    // ---- which images are restarted: always the clean restart of the finished history, then a few of the tail's
+    //      crash images: first the two where a huge line has just reached the log ("body written, no newline yet" and
+    //      "whole line in the log, caches not yet", alternating which comes first), the others drawn from all
+    //      boundaries -------------------------------------------------------------------------------------------------
+    let n_crash = cfg.tier.pick(2usize, 6usize);
+    let mut chosen: Vec<Image> = Vec::new();
+    let order = if (idx / cfg.shard.1.max(1) + idx) % 2 == 0 {
+        ["log.append.after_body", "log.append.after_flush"]
+    } else {
+        ["log.append.after_flush", "log.append.after_body"]
+    };
+    for prefer in order {
+        if let Some(p) = {
+            let of = |f: &dyn Fn(&(Image, u8)) -> bool| -> Vec<usize> { candidates.iter().enumerate().filter(|(_, c)| f(c)).map(|(i, _)| i).collect() };
+            let mut pri = of(&|c| c.1 == 2 && c.0.point == prefer);
+            if pri.is_empty() {
+                pri = of(&|c| c.1 == 2);
+            }
+            if pri.is_empty() {
+                pri = of(&|c| c.1 == 1);
+            }
+            if pri.is_empty() { None } else { Some(pri[rng.usize(pri.len())]) }
+        } {
+            chosen.push(candidates.remove(p).0);
+        }
+    }
+    while chosen.len() < n_crash && !candidates.is_empty() {
+        let p = rng.usize(candidates.len());
+        chosen.push(candidates.remove(p).0);
+    }
+    for (c, _) in &candidates {
+        let _ = std::fs::remove_dir_all(&c.dir);
+    }
+    // the clean restart works on the store itself (nothing else needs it any more)
+    let clean = Image {
+        dir: store.dir.clone(),
+        point: CLEAN_RESTART,
+        op_index: tail.len(),
+        op_kind: format!("CleanRestartAfterHugeTail[{layout};lines{lines:?}]"),
+        acked: acked.len(),
+        conts: conts.clone(),
+    };
+    let mut judged = 0u64;
+    for (n, img) in std::iter::once(&clean).chain(chosen.iter()).enumerate() {
+        // the clean restart of a history that was built and its first crash image (a huge line as the file tail,
+        // where there is one) are always judged; further crash images only inside the time box
+        if n > 1 && r.elapsed() > time_box * 1.25 {
+            r.count("huge_tail_images_not_judged_time_box", 1);
+            continue;
+        }
+        judge_image(r, img, &acked[..img.acked.min(acked.len())], case);
+        r.eval();
+        judged += 1;
+        let op = img.op_kind.split('[').next().unwrap_or("");
+        r.distinct_str(&format!("huge:{layout}:{classes:?}:{op}@{}", img.point));
+        if img.point == CLEAN_RESTART {
+            r.count("huge_clean_restarts_judged", 1);
+        } else {
+            r.count("huge_crash_images_judged", 1);
+            r.count(&format!("huge_point:{}", img.point), 1);
+        }
+    }
+    for img in &chosen {
+        let _ = std::fs::remove_dir_all(&img.dir);
+    }
+    if r.samples.len() < 2 {
+        r.sample(json!({"case": case, "layout": layout, "wanted_line_bytes": targets, "tail": desc, "line_bytes": lines,
+            "images_restarted": judged, "crash_images": chosen.iter().map(|i| json!({"op": i.op_kind, "point": i.point})).collect::<Vec<_>>()}));
+    }
+}
+
 fn one_history(cfg: &Cfg, r: &mut Report, s: &Arc<crate::sched::Sched>, rt: &tokio::runtime::Runtime, rng: &mut Rng, idx: u64) {
     let store = Store::new("c05");
     let img_root = store.dir.join("images");
@@ -438,7 +884,8 @@ fn judge_image(r: &mut Report, img: &Image, acked: &[String], case: u64) {
     let st = Store::at(&img.dir, true);
     let _ = std::fs::create_dir_all(&st.ws);
     let wit = |extra: Value| json!({"case": case, "op_index": img.op_index, "op": img.op_kind, "crash_point": img.point, "detail": extra});
-    let at = format!("crash@{}", img.point);
+    // a clean restart (engine dropped, store reopened) is the degenerate crash point
+    let at = if img.point == CLEAN_RESTART { CLEAN_RESTART.to_string() } else { format!("crash@{}", img.point) };
 
     // (1) restart
     let app = match App::open(&st, None) {
